@@ -21,7 +21,7 @@ import common
 from common import bits2float, dec, fr
 
 PROP = "C17"
-PROPS_FILES = ["Pms/Props/C17.lean"]
+PROPS_FILES = ["Pms/Props/C17.lean", "Pms/Props/C17Real.lean"]
 GENERATORS = []
 RULE = ("four seeded streams. s2: d∈{2,3} × cell {orthogonal, lower-triangular} × mask {0,1}^d × 1–3 species with a "
         "symmetric/asymmetric width matrix × bin settings (rdelta, ndelta) × 1–2 frames; tetra: 3-D, N∈[5,12], random "
